@@ -34,6 +34,14 @@ pub const SNAP_BC: u32 = 103;
 /// address of the buffer: identifies the function inside one run only)
 pub const SNAP_GRID: u32 = 104;
 
+/// (1 when the record of the running frame -- function, bytecode_ptr/len, constants_ptr/len as a
+/// return will reload them -- names the buffers and lengths of the frame's own function object,
+/// else 0; index of the frame)
+pub const SNAP_FRAME: u32 = 105;
+/// (1 when the frame's upvalue pointer is null or is the upvalue vector of a live closure, else 0;
+/// upvalues_len)
+pub const SNAP_UPOWNER: u32 = 106;
+
 /// Is `target` reached by the verifier's linear walk over `len` words at `ptr`?
 pub fn on_grid(ptr: *const u32, len: usize, target: usize) -> bool {
     let mut i = 0usize;
@@ -94,5 +102,24 @@ impl crate::vm::VM {
             }
             None => (usize::MAX, usize::MAX),
         }
+    }
+
+    /// Does the frame record (what a return reloads) describe the frame's own function object?
+    pub fn verif_frame_record_ok(&self, frame_idx: usize) -> bool {
+        match self.frames.get(frame_idx) {
+            Some(f) => {
+                let (bl, cl) = self.verif_true_lens(f.function, f.bytecode_ptr, f.constants_ptr);
+                bl != usize::MAX && cl != usize::MAX && bl == f.bytecode_len && cl == f.constants_len
+            }
+            None => false,
+        }
+    }
+
+    /// Is `upvalues_ptr` null/empty or the upvalue vector of a closure that is still in the heap?
+    pub fn verif_upvalues_owner_alive(&self, upvalues_ptr: *const crate::vm::GcRef, upvalues_len: usize) -> bool {
+        if upvalues_ptr.is_null() || upvalues_len == 0 {
+            return true;
+        }
+        !self.heap.closures_owning_upvalues(&[upvalues_ptr]).is_empty()
     }
 }
